@@ -256,6 +256,12 @@ func (p *Parser) GenerateBaseCode() (code string, err error) {
 					}
 					return true
 				})
+				if !n.Lparen.IsValid() && minPos != 0 {
+					// The cut starts at the type keyword: the head of the declaration
+					// may spread over several lines (a comment between the keywords or in
+					// front of the brace), not only the line of the opening brace.
+					minPos = n.Pos()
+				}
 			}
 		}
 
@@ -279,7 +285,7 @@ func (p *Parser) GenerateBaseCode() (code string, err error) {
 	base := buf.String()
 	// Now each interfaces is marked with two <<marker>>s like below:
 	//
-	//	    type Convergen <<marker>>interface {
+	//	    <<marker>>type Convergen interface {
 	//	      DomainToModel(pet *mx.Pet) *mx.Pet
 	//      }   <<marker>>
 	//
@@ -289,7 +295,7 @@ func (p *Parser) GenerateBaseCode() (code string, err error) {
 
 	for _, entry := range p.intfEntries {
 		reMarker := regexp.QuoteMeta(entry.marker)
-		re := regexp.MustCompile(`.+` + reMarker + ".*(\n|.)*?" + reMarker)
+		re := regexp.MustCompile(`.*` + reMarker + "(\n|.)*?" + reMarker)
 		base = re.ReplaceAllString(base, entry.marker)
 	}
 
